@@ -188,6 +188,11 @@ func Yield(res uintptr) int64 {
 // (YieldIO). Scenarios that run the real proxy set it in their Setup; RunSched clears it before every Setup.
 var IOPoints bool
 
+// PostStorePoints adds a second scheduling point after every sync.Map.Store of the shim (the point before it is always
+// there): the window between publishing a value and the publisher's next statements — which may contain nothing but
+// atomic stores — becomes enterable. Off unless a scenario's Setup sets it; RunSched clears it before every Setup.
+var PostStorePoints bool
+
 // YieldIO is a scheduling point only while IOPoints is set.
 func YieldIO(res uintptr) {
 	if IOPoints {
